@@ -149,6 +149,8 @@ def replay(tid, cons, styles_by_rank, rounds, rng, variant_override=None):
         return int(round((diff - off) * 256)) - 1
     prev = None
     prev_alt = None
+    last_sizes = {}
+    stale_thr = {c: rng.choice([None, None, base + stride * (n + 5), base + stride * max(1, n // 2)]) for c in cons}
     for step, rd in enumerate(rounds, start=1):
         variant = variant_override(step, rd["variant"]) if variant_override else rd["variant"]
         sizes = {c: int(rd["sizes"][c]) for c in cons}
@@ -157,8 +159,13 @@ def replay(tid, cons, styles_by_rank, rounds, rng, variant_override=None):
             with warnings.catch_warnings():
                 warnings.simplefilter("ignore")
                 for c in cons:
+                    # a Contest object may have served an earlier draw (another seed, another card list, a restored
+                    # audit): until it has cards of its own in this audit its threshold is whatever that left behind
+                    if sizes[c] > 0 and last_sizes.get(c, 0) == 0 and stale_thr.get(c) is not None:
+                        contests[c].sample_threshold = stale_thr[c]
                     contests[c].sample_size = sizes[c]
                     contests_alt[c].sample_size = sizes[c]
+                    last_sizes[c] = sizes[c]
                 if variant == "redraw" or prev is None:
                     idx = core.with_time_limit(10, CVR.consistent_sampling, cvrs, contests)
                     idx_alt = core.with_time_limit(10, CVR.consistent_sampling, cvrs_alt, contests_alt)
@@ -277,8 +284,9 @@ def run(pid, tier):
     if pid == "C10":
         # the documented workflow end to end (phantoms -> assertions -> margins -> rounds of sampling, lookup, data,
         # p-values, status), one event per call, validated against the composed specification
-        from . import audit_run
+        from . import audit_run, poll_run
         audit_run.audit_run_part(rep, tier, rng, behs_all)
+        poll_run.poll_run_part(rep, tier, rng)
     rep.assumptions += ["sample numbers are injected (256-bit integers increasing with the TLC-chosen rank); list positions "
                         "are a seeded permutation of the rank order",
                         "each card's manual record carries a value that identifies the card, so the data handed to a test "
